@@ -176,15 +176,19 @@ def apply_resultpath(input, result, path="$"):
     def update_path(target, keys, default):
         if len(keys) == 0:
             return default
-        key = keys.pop(0)
+        key, quoted = keys.pop(0)
         if isinstance(target, list):
             try:
+                if quoted:  # ['name'] is a member name, not an array index
+                    raise ValueError("{} is not an array index".format(key))
                 i = int(key)
                 target[i] = update_path(target[i], keys, default)
             except (ValueError, IndexError) as e:
                 raise ResultPathMatchFailure(e)
         elif isinstance(target, dict):
             try:  # Test if key is (incorrectly) an int.
+                if quoted:
+                    raise ValueError
                 int(key)
                 raise ResultPathMatchFailure(
                     "Object index {} is not a valid key string".format(key)
@@ -212,7 +216,12 @@ def apply_resultpath(input, result, path="$"):
             "The value of \"ResultPath\" MUST NOT begin with \"$$\""
         )
 
-    matches = re.findall(r"[^$.[\]]+", path)  # Regex to split the reference paths
+    # Regex to split the reference paths into (key, quoted) pairs: the name in
+    # bracket notation ['name'] is what is between the quotes, dots included.
+    matches = [
+        (m[0] or m[1], True) if m[2] == "" else (m[2], False)
+        for m in re.findall(r"""\['([^']*)'\]|\["([^"]*)"\]|([^$.[\]]+)""", path)
+    ]
     # Place a copy: the result may be (part of) the input, e.g. a Pass state with
     # no Result, and inserting the object into itself creates a circular reference.
     return update_path(input, matches, copy.deepcopy(result))
